@@ -98,6 +98,12 @@ HISTORY = {  # what had to be strengthened before the change was caught (filled 
     "C13r": "missed at first: every row inside the used range had at least one cell record -> feature empty-row-inside",
     "C14q": "not reported by C14 (the unit view is only compared when the unit count is right); caught by C03 (unit count, image-only last page)",
     "C14r": "missed at first: drawing parts were numbered like their sheets -> reversed, shifted (drawing10 before drawing2) and shuffled part numbers on half of the workbooks",
+    "C10s": "missed at first: the 7z writer declared the dictionary it compressed with (small) -> LZMA1 folders, the LZMA2 property byte and LZMA-compressed headers declare 4 KiB ... 128 MiB in the coder properties (every third 7z case), control twin with the dictionary really used",
+    "C17s": "missed at first: every generated body ended in a closing tag or a line break -> fragments that end in bare text with a literal ampersand followed by letters (R&D, AT&T ...) behind every removed construct, the reference being the same fragment without the construct; clause text-altered for the last words",
+    "C12s": "missed at first: no footnote family among the amplifier probes -> RTF footnote with a growing plain run in front of a three-deep group nest, and the unterminated footnote",
+    "C12t": "missed at first: member names in the limit probes were unique -> ZIP that lists one name twice (small first / oversize last and the reverse), both central-directory entries written raw",
+    "C15s": "missed at first: no history put an encrypted PDF in front of a plain PDF of 10 MiB or more with pictures -> history encrypted-then-large-pdf",
+    "C18t": "missed at first: the simulator stamped folders from their content -> folders carry their own lastModifiedDateTime (older, newer, absent), folder_paths combined with modified_after in the filtered and since listings",
     "C20q": "missed at first: IVs were random -> the all-zero IV (pypdf's key unwrap), all-ones and single-bit IVs in 15 % of the CBC calls",
 }
 # a change that is not a violation under every admissible reading of the property text: the check admits both readings, by design
@@ -114,7 +120,8 @@ C01k C02k C02l C04k C04l C05k C08l C13k C13l C06l C07k C09l C10l C12k C12l C14k 
 C01m C01n C03m C03n C13m C13n C14m C14n C06n C07n C09n C10n C11m C11n C16m C16n C17m C12m C12n C15m C15n C19m
 C01o C01p C02o C03o C04o C04p C05o C05p C08p C13o C13p C14o
 C06o C06p C07o C09p C10o C10p C11o C12o C12p C15o C15p C16p C18o
-C01q C01r C02q C02r C03r C04r C05q C05r C08q C08r C13q C13r C14q C14r C20q""".split())
+C01q C01r C02q C02r C03r C04r C05q C05r C08q C08r C13q C13r C14q C14r C20q
+C10s C12s C12t C15s C17s C18t""".split())
 
 
 def history_for(sid):
